@@ -90,6 +90,96 @@ def readN (st : RState) (n : Nat) : Option (Bytes × RState) :=
   if st.input.length < n then none
   else some (st.input.take n, { st with input := st.input.drop n })
 
+/-- The error texts `advanceFrame` collects for the first two header bytes, in the order of the Go
+code (`readFinal` is the value before this frame). -/
+def headerErrs (cfg : Cfg) (readFinal : Bool) (h : Hdr) : List String :=
+  (if h.rsv1 && !cfg.deflate then ["RSV1 set"] else [])
+  ++ (if h.rsv2 then ["RSV2 set"] else [])
+  ++ (if h.rsv3 then ["RSV3 set"] else [])
+  ++ (if isControlOp h.opcode then
+        (if h.len7 > 125 then ["len > 125 for control"] else [])
+        ++ (if !h.fin then ["FIN not set on control"] else [])
+      else if isDataOp h.opcode then
+        (if !readFinal then ["data before FIN"] else [])
+      else if h.opcode == 0 then
+        (if readFinal then ["continuation after FIN"] else [])
+      else ["bad opcode " ++ toString h.opcode])
+  ++ (if h.masked != cfg.server then ["bad MASK"] else [])
+
+/-- step 3 of `advanceFrame`: the extended payload length -/
+def readLen (st : RState) : Except (RErr × RState) RState :=
+  if st.readRemaining == 126 then
+    match readN st 2 with
+    | none => .error (.eof, { st with input := [] })
+    | some (p, st) => .ok { st with readRemaining := beVal p }
+  else if st.readRemaining == 127 then
+    match readN st 8 with
+    | none => .error (.eof, { st with input := [] })
+    | some (p, st) =>
+      -- setReadRemaining(int64(uint64)): negative → ErrReadLimit, nothing is written
+      if beVal p ≥ two63 then .error (.readLimit, { st with devs := st.devs ++ [Dev.len64Msb] })
+      else .ok { st with readRemaining := beVal p }
+  else .ok st
+
+/-- step 4: the masking key -/
+def readMask (masked : Bool) (st : RState) : Option RState :=
+  if masked then
+    match readN st 4 with
+    | some ([a, b, c, d], st) => some { st with maskKey := ⟨a, b, c, d⟩, maskPos := 0 }
+    | _ => none
+  else some st
+
+/-- step 5: text, binary and continuation frames: enforce the read limit and return -/
+def dataFrame (cfg : Cfg) (frameType : Nat) (st : RState) : Adv :=
+  let st := { st with readLength := st.readLength + st.readRemaining }
+  -- Don't allow readLength to overflow in the presence of a large readRemaining counter.
+  if st.readLength ≥ two63 then
+    .err .readLimit { st with devs := st.devs ++ [Dev.lengthOverflow] }
+  else if cfg.readLimit > 0 && st.readLength > cfg.readLimit then
+    .err .readLimit (writeControl st opClose (formatClose 1009 [])).1
+  else .ok frameType st
+
+/-- steps 6 and 7: read and process a control frame payload -/
+def controlFrame (cfg : Cfg) (frameType : Nat) (st : RState) : Adv :=
+  let payRes : Option (Bytes × RState) :=
+    if st.readRemaining > 0 then
+      match readN st st.readRemaining with
+      | none => none
+      | some (p, st) =>
+        some (if cfg.server then xorMask st.maskKey 0 p else p, { st with readRemaining := 0 })
+    else some ([], st)
+  match payRes with
+  | none => .err .eof { st with input := [], readRemaining := 0 }
+  | some (payload, st) =>
+  if frameType == opPong then
+    .ok frameType { st with events := st.events ++ [.pong payload] }
+  else if frameType == opPing then
+    -- defaultPingHandler: ErrCloseSent is swallowed
+    let st := { st with events := st.events ++ [.ping payload] }
+    .ok frameType (writeControl st opPong payload).1
+  else
+    -- CloseMessage
+    match payload with
+    | a :: b :: text =>
+      let code := a.toNat * 256 + b.toNat
+      if !goValidCloseCode code then handleProtocolError st ("bad close code " ++ toString code)
+      else if !utf8Valid text then handleProtocolError st "invalid utf8 payload in close frame"
+      else .err (.close code text) (writeControl st opClose (formatClose code [])).1
+    | rest =>
+      let st := if rest.length == 1 then { st with devs := st.devs ++ [Dev.close1] } else st
+      .err (.close 1005 []) (writeControl st opClose (formatClose 1005 [])).1
+
+/-- steps 3 to 7 -/
+def frameBody (cfg : Cfg) (h : Hdr) (st : RState) : Adv :=
+  match readLen st with
+  | .error (e, st) => .err e st
+  | .ok st =>
+    match readMask h.masked st with
+    | none => .err .eof { st with input := [] }
+    | some st =>
+      if h.opcode == 0 || isDataOp h.opcode then dataFrame cfg h.opcode st
+      else controlFrame cfg h.opcode st
+
 def advanceFrame (cfg : Cfg) (st0 : RState) : Adv :=
   -- 1. Skip remainder of previous frame.
   let skipped : Option RState :=
@@ -106,111 +196,20 @@ def advanceFrame (cfg : Cfg) (st0 : RState) : Adv :=
   | some (p, st) =>
   match p with
   | [p0, p1] =>
-    let frameType := (p0 &&& 0xf).toNat
-    let final := p0 &&& 0x80 != 0
-    let rsv1 := p0 &&& 0x40 != 0
-    let rsv2 := p0 &&& 0x20 != 0
-    let rsv3 := p0 &&& 0x10 != 0
-    let mask := p1 &&& 0x80 != 0
-    let st := { st with readRemaining := (p1 &&& 0x7f).toNat, readDecompress := false }
-    let errs : List String := []
-    let (st, errs) :=
-      if rsv1 then
-        if cfg.deflate then
-          ({ st with readDecompress := true,
-                     devs := if isControlOp frameType then st.devs ++ [Dev.rsv1Control]
-                             else if frameType == 0 then st.devs ++ [Dev.rsv1Continuation]
-                             else st.devs }, errs)
-        else (st, errs ++ ["RSV1 set"])
-      else (st, errs)
-    let errs := if rsv2 then errs ++ ["RSV2 set"] else errs
-    let errs := if rsv3 then errs ++ ["RSV3 set"] else errs
-    let (st, errs) :=
-      if isControlOp frameType then
-        let errs := if st.readRemaining > 125 then errs ++ ["len > 125 for control"] else errs
-        let errs := if !final then errs ++ ["FIN not set on control"] else errs
-        (st, errs)
-      else if isDataOp frameType then
-        let errs := if !st.readFinal then errs ++ ["data before FIN"] else errs
-        ({ st with readFinal := final }, errs)
-      else if frameType == 0 then
-        let errs := if st.readFinal then errs ++ ["continuation after FIN"] else errs
-        ({ st with readFinal := final }, errs)
-      else (st, errs ++ ["bad opcode " ++ toString frameType])
-    let errs := if mask != cfg.server then errs ++ ["bad MASK"] else errs
-    if !errs.isEmpty then handleProtocolError st (", ".intercalate errs) else
-    -- 3. Read and parse frame length.
-    let lenRes : Except (RErr × RState) RState :=
-      if st.readRemaining == 126 then
-        match readN st 2 with
-        | none => .error (.eof, { st with input := [] })
-        | some (p, st) => .ok { st with readRemaining := beVal p }
-      else if st.readRemaining == 127 then
-        match readN st 8 with
-        | none => .error (.eof, { st with input := [] })
-        | some (p, st) =>
-          -- setReadRemaining(int64(uint64)): negative → ErrReadLimit, nothing is written
-          if beVal p ≥ two63 then .error (.readLimit, { st with devs := st.devs ++ [Dev.len64Msb] })
-          else .ok { st with readRemaining := beVal p }
-      else .ok st
-    match lenRes with
-    | .error (e, st) => .err e st
-    | .ok st =>
-    -- 4. Handle frame masking.
-    let maskRes : Option RState :=
-      if mask then
-        match readN st 4 with
-        | some ([a, b, c, d], st) => some { st with maskKey := ⟨a, b, c, d⟩, maskPos := 0 }
-        | _ => none
-      else some st
-    match maskRes with
-    | none => .err .eof { st with input := [] }
-    | some st =>
-    -- 5. For text and binary messages, enforce read limit and return.
-    if frameType == 0 || isDataOp frameType then
-      let st := { st with readLength := st.readLength + st.readRemaining }
-      if st.readLength ≥ two63 then
-        .err .readLimit { st with devs := st.devs ++ [Dev.lengthOverflow] }
-      else if cfg.readLimit > 0 && st.readLength > cfg.readLimit then
-        .err .readLimit (writeControl st opClose (formatClose 1009 [])).1
-      else .ok frameType st
-    else
-    -- 6. Read control frame payload.
-    let payRes : Option (Bytes × RState) :=
-      if st.readRemaining > 0 then
-        match readN st st.readRemaining with
-        | none => none
-        | some (p, st) =>
-          some (if cfg.server then xorMask st.maskKey 0 p else p, { st with readRemaining := 0 })
-      else some ([], st)
-    match payRes with
-    | none => .err .eof { st with input := [], readRemaining := 0 }
-    | some (payload, st) =>
-    -- 7. Process control frame payload.
-    if frameType == opPong then
-      .ok frameType { st with events := st.events ++ [.pong payload] }
-    else if frameType == opPing then
-      -- defaultPingHandler: ErrCloseSent is swallowed
-      let st := { st with events := st.events ++ [.ping payload] }
-      .ok frameType (writeControl st opPong payload).1
-    else
-      -- CloseMessage
-      match payload with
-      | a :: b :: text =>
-        let code := a.toNat * 256 + b.toNat
-        if !goValidCloseCode code then handleProtocolError st ("bad close code " ++ toString code)
-        else if !utf8Valid text then handleProtocolError st "invalid utf8 payload in close frame"
-        else .err (.close code text) (writeControl st opClose (formatClose code [])).1
-      | rest =>
-        let st := if rest.length == 1 then { st with devs := st.devs ++ [Dev.close1] } else st
-        .err (.close 1005 []) (writeControl st opClose (formatClose 1005 [])).1
+    let h := parseHdr p0 p1
+    let errs := headerErrs cfg st.readFinal h
+    -- state written while the header is examined
+    let st := { st with
+      readRemaining := h.len7,
+      readDecompress := h.rsv1 && cfg.deflate,
+      readFinal := if isDataOp h.opcode || h.opcode == 0 then h.fin else st.readFinal,
+      devs := if h.rsv1 && cfg.deflate then
+                (if isControlOp h.opcode then st.devs ++ [Dev.rsv1Control]
+                 else if h.opcode == 0 then st.devs ++ [Dev.rsv1Continuation] else st.devs)
+              else st.devs }
+    if !errs.isEmpty then handleProtocolError st (", ".intercalate errs)
+    else frameBody cfg h st
   | _ => .err (.panic "header index") st
-
-/-- which part of the `ReadMessage` loop the reader is in -/
-inductive Mode where
-  | idle                                            -- inside `NextReader`'s frame loop
-  | inMsg (typ : Nat) (dec : Bool) (acc : Bytes)    -- inside `io.ReadAll(reader)`
-deriving Repr, DecidableEq
 
 def RErr.toEvent : RErr → Event
   | .eof => .incomplete
@@ -226,50 +225,55 @@ def RErr.toEvent : RErr → Event
 def finish (e : RErr) (st : RState) : RState :=
   { st with events := st.events ++ [e.toEvent], result := some e }
 
-/-- the application loop `for { ReadMessage() ; stop on error }`, one frame-level step per unit of
-fuel -/
-def run (cfg : Cfg) : Nat → Mode → RState → RState
+/-- The application loop `for { ReadMessage(); stop on error }`, one frame per unit of fuel.
+
+`frag = none`: inside `NextReader`'s loop (no message started); `frag = some f`: inside
+`io.ReadAll(reader)` → `messageReader.Read` of a started message whose payload so far is `f.acc`
+(`f.compressed` is `c.readDecompress` as captured by `NextReader` after the first frame).
+Each iteration is one `advanceFrame` call (control frames are handled inside it) followed, for a
+data or continuation frame, by the `messageReader.Read` calls that consume its payload; when the
+final frame is consumed the message is delivered (through flate and `limitedReader` when it is
+compressed) and `NextReader` starts again (`readLength = 0`). -/
+def run (cfg : Cfg) : Nat → Option Frag → RState → RState
   | 0, _, st => finish .fuel st
-  | n + 1, .idle, st =>
+  | n + 1, frag, st =>
     match advanceFrame cfg st with
     | .err e st' => finish e st'
     | .ok ft st' =>
-      if isDataOp ft then run cfg n (.inMsg ft st'.readDecompress []) st'
-      else run cfg n .idle st'
-  | n + 1, .inMsg typ dec acc, st =>
-    if st.readRemaining > 0 then
-      -- `c.br.Read` until the frame is exhausted or the stream ends
-      if st.input.length < st.readRemaining then finish .eof { st with input := [] }
+      if !(isDataOp ft || ft == 0) then run cfg n frag st'       -- ping / pong
+      else if frag.isNone && !isDataOp ft then run cfg n none st'  -- NextReader skips it (unreachable)
+      else if frag.isSome && isDataOp ft then finish .unexpectedData st'
       else
-        let chunk := st.input.take st.readRemaining
-        let chunk := if cfg.server then xorMask st.maskKey st.maskPos chunk else chunk
-        run cfg n (.inMsg typ dec (acc ++ chunk))
-          { st with input := st.input.drop st.readRemaining, readRemaining := 0,
-                    maskPos := (st.maskPos + st.readRemaining) % 4 }
-    else if st.readFinal then
-      -- message complete: io.EOF from messageReader; flate/limitedReader see the whole message
-      let st := { st with readLength := 0 }
-      if dec then
-        match cfg.inflate (acc ++ deflateTail) with
-        | none => finish .inflate st
-        | some out =>
-          if cfg.inflatedLimit > 0 && out.length > cfg.inflatedLimit then
-            finish .readLimit
-              (writeControl st opClose
-                (formatClose 1009 "message too big after decompression".toUTF8.toList)).1
-          else run cfg n .idle { st with events := st.events ++ [.msg typ out] }
-      else run cfg n .idle { st with events := st.events ++ [.msg typ acc] }
-    else
-      match advanceFrame cfg st with
-      | .err e st' => finish e st'
-      | .ok ft st' =>
-        if isDataOp ft then finish .unexpectedData st'
-        else run cfg n (.inMsg typ dec acc) st'
+        let typ := match frag with | some f => f.typ | none => ft
+        let dec := match frag with | some f => f.compressed | none => st'.readDecompress
+        let acc := match frag with | some f => f.acc | none => []
+        -- `c.br.Read` until the frame is exhausted or the stream ends
+        if st'.input.length < st'.readRemaining then finish .eof { st' with input := [] }
+        else
+          let chunk := st'.input.take st'.readRemaining
+          let chunk := if cfg.server then xorMask st'.maskKey st'.maskPos chunk else chunk
+          let acc := acc ++ chunk
+          let st' := { st' with input := st'.input.drop st'.readRemaining, readRemaining := 0,
+                                maskPos := (st'.maskPos + st'.readRemaining) % 4 }
+          if !st'.readFinal then run cfg n (some ⟨typ, dec, acc⟩) st'
+          else
+            -- message complete: io.EOF from messageReader; flate/limitedReader saw the whole message
+            let st' := { st' with readLength := 0 }
+            if dec then
+              match cfg.inflate (acc ++ deflateTail) with
+              | none => finish .inflate st'
+              | some out =>
+                if cfg.inflatedLimit > 0 && out.length > cfg.inflatedLimit then
+                  finish .readLimit
+                    (writeControl st' opClose
+                      (formatClose 1009 "message too big after decompression".toUTF8.toList)).1
+                else run cfg n none { st' with events := st'.events ++ [.msg typ out] }
+            else run cfg n none { st' with events := st'.events ++ [.msg typ acc] }
 
-def fuelFor (input : Bytes) : Nat := 3 * input.length + 3
+def fuelFor (input : Bytes) : Nat := input.length + 1
 
 /-- A fresh connection reading `input` until the first error. -/
 def runReader (cfg : Cfg) (input : Bytes) : RState :=
-  run cfg (fuelFor input) .idle { input := input }
+  run cfg (fuelFor input) none { input := input }
 
 end CentrifugeVerif.WS.Reader
